@@ -103,20 +103,22 @@ MAY_PANIC = {
     'core::cell::RefCell::borrow': 'already mutably borrowed',
 }
 
-# rkyv entry points that trust their input (no validation)
-RKYV_UNCHECKED = {
-    'rkyv::util::archived_root',
-    'rkyv::util::archived_root_mut',
-    'rkyv::util::archived_value',
-    'rkyv::util::archived_value_mut',
-    'rkyv::util::archived_unsized_root',
-    'rkyv::util::archived_unsized_value',
-    'rkyv::util::from_bytes_unchecked',
-}
-RKYV_CHECKED = {
-    'rkyv::validation::validators::check_archived_root',
-    'rkyv::validation::validators::check_archived_value',
-    'rkyv::validation::validators::from_bytes',
-    'rkyv::validation::check_archived_root_with_context',
-    'rkyv::validation::check_archived_value_with_context',
-}
+# rkyv entry points, matched by function name anywhere inside the rkyv crate (module paths differ between versions)
+class _RkyvSet:
+    def __init__(self, names):
+        self.names = set(names)
+
+    def __contains__(self, n):
+        return isinstance(n, str) and n.startswith('rkyv::') and n.rsplit('::', 1)[-1] in self.names
+
+    def __iter__(self):
+        return iter(sorted(self.names))
+
+
+# trust their input (no validation)
+RKYV_UNCHECKED = _RkyvSet(['archived_root', 'archived_root_mut', 'archived_value', 'archived_value_mut',
+                           'archived_unsized_root', 'archived_unsized_root_mut', 'archived_unsized_value',
+                           'archived_unsized_value_mut', 'from_bytes_unchecked'])
+# validate before handing out a reference / value
+RKYV_CHECKED = _RkyvSet(['check_archived_root', 'check_archived_value', 'from_bytes',
+                         'check_archived_root_with_context', 'check_archived_value_with_context'])
